@@ -198,6 +198,38 @@ class SaveCrashScenario(PersistScenario):
         rec.log("crash_save", fname, fmt, len(plans))
         rec.kind("%s:%d" % (fmt, min(len(plans), 40) // 5))
 
+    def check_written_secrets(self, st, cfg, w, content, fmt, opts, secrets, rec, label):
+        import base64
+        from .. import refcrypto
+        try:
+            tree = ops.parse_doc(fmt, content, opts) if fmt != "xml" else self.parse_xml(content, opts)
+        except Exception:  # noqa: BLE001
+            return
+        owners, nodes = self.cfg_nodes(st, cfg)
+        rec.check()
+        for path, opath, plain, node in secrets:
+            slot = self.tree_at(tree, path)
+            if not (isinstance(slot, dict) and "method" in slot and "ciphertext" in slot):
+                continue
+            try:
+                ct = base64.b64decode(slot["ciphertext"], validate=True)
+            except Exception:  # noqa: BLE001
+                continue
+            kname = self.key_for(st, cfg, opath, owners, nodes)
+            key = w.peek(w.abspath(w.expanduser(kname)))
+            got = None
+            if key is not None and len(key) == 32:
+                try:
+                    got = refcrypto.xor(ct, key) if slot["method"] == "xor" else refcrypto.aes_cbc_decrypt(key, ct[:16], ct[16:])
+                except Exception:  # noqa: BLE001
+                    got = None
+            if got != plain.encode():
+                rec.fail("C19/success", "C19/successful-save-cannot-load-back/%s" % label,
+                         "save(%s) returned normally under %s and replaced the destination, but %s does not decrypt with what the key "
+                         "file %s holds (%s): no session can load this file back"
+                         % (fmt, label, path, kname, "no key" if key is None else "%d bytes" % len(key)))
+            rec.probe("returned-save-secrets-decrypt")
+
     def one_faulted_save(self, st, cfg, base, dest, P, fname, fmt, opts, what, k, ctl, rng, rec, secrets, key_opens):
         w = base.clone()
         seams.install(w)
@@ -269,6 +301,7 @@ class SaveCrashScenario(PersistScenario):
             else:
                 bad = Opaque(7)
             setattr(t.owner, key, bad)
+            odv_path, odv_value = t.path, bad
             restore = lambda: setattr(t.owner, key, old)  # noqa: E731
         j0 = len(w.journal)
         try:
@@ -295,8 +328,12 @@ class SaveCrashScenario(PersistScenario):
                       and not (e[2] == "open" and e[4] in ("rb", "r"))]
             if err is None and what != "out-of-domain-value":
                 # the statement protects the destination *if serialisation fails*: this save returned normally (the library
-                # found another way: a cached key, an option it ignores...), so the premise does not hold
+                # found another way: a cached key, an option it ignores...), so the premise does not hold.  The other half then
+                # applies: what a successful save wrote must load back -- for which every secret in it has to decrypt with the
+                # key its configuration's key file holds on disk now (a key nobody can find again cannot be loaded back)
                 rec.probe("faulted-save-returned-normally:" + label)
+                if secrets and after is not None and after != P:
+                    self.check_written_secrets(st, cfg, w, after, use_fmt, use_opts, secrets, rec, label)
             elif what == "out-of-domain-value" and err is None and after != P and secrets:
                 rec.probe("out-of-domain-value-saved:with-secrets")      # loading it back needs this session's key-file layout: no claim
             elif what == "out-of-domain-value" and err is None and after != P:
@@ -307,6 +344,11 @@ class SaveCrashScenario(PersistScenario):
                 if lerr is not None:
                     rec.fail("C19/success", "C19/successful-save-does-not-load-back/%s" % fmt,
                              "save(%s) of a value outside the format's domain returned normally and replaced the destination by a document that does not load: %r" % (fmt, lerr))
+                else:
+                    back, _ = self._call(lambda: ops.resolve(fresh, odv_path))
+                    if canon(back) != canon(odv_value):
+                        rec.fail("C19/success", "C19/successful-save-loads-back-different/%s" % fmt,
+                                 "save(%s) accepted %r for %s; loading the file back gives %r (not an equal configuration)" % (fmt, canon(odv_value), odv_path, canon(back)))
                 rec.probe("out-of-domain-value-saved-and-loads")
             elif after != P:
                 rec.fail("C19/untouched", "C19/destination-damaged/%s/%s" % (label, "truncated" if (after is not None and P and not after) else "changed"),
